@@ -60,9 +60,10 @@ structure Reader where
   sched : Nat → Nat
   calls : Nat
 
-/-- `read(&mut buf)` with `buf.len() = n`: the bytes written to the front of `buf`, and the new reader -/
+/-- `read(&mut buf)` with `buf.len() = n`: the bytes written to the front of `buf` (`take` stops at the end of the
+input, so these are `min n (sched calls) rest.length` bytes), and the new reader -/
 def Reader.read (r : Reader) (n : Nat) : List UInt8 × Reader :=
-  let k := min n (min (r.sched r.calls) r.rest.length)
+  let k := min n (r.sched r.calls)
   (r.rest.take k, { r with rest := r.rest.drop k, calls := r.calls + 1 })
 
 /-! ## The buffered layer (`PgnRawParser` fields) -/
@@ -332,16 +333,16 @@ def next (fuel : Nat) : Prog (Option (Except Err RawGame)) :=
     | .error .closed => .ret none
     | .error e => .ret (some (.error e))
 
-/-- iterate `next` until `None` or the first `Some(Err _)` (kept as last item) -/
-def readAllLoop (fuel : Nat) : Nat → Prog (List Item)
-  | 0 => .ret []
-  | k + 1 =>
+/-- `for item in parser { items.push(item) }`, stopping after the first `Some(Err _)` (kept as last item) -/
+def readAllLoop (fuel : Nat) : Nat → List Item → Prog (List Item)
+  | 0, items => .ret items
+  | k + 1, items =>
     Prog.bind (next fuel) fun
-      | none => .ret []
-      | some (.error e) => .ret [Item.err e]
-      | some (.ok g) => Prog.bind (readAllLoop fuel k) fun items => .ret (Item.game g :: items)
+      | none => .ret items
+      | some (.error e) => .ret (items ++ [Item.err e])
+      | some (.ok g) => readAllLoop fuel k (items ++ [Item.game g])
 
-def readAllProg (fuel : Nat) : Prog (List Item) := readAllLoop fuel fuel
+def readAllProg (fuel : Nat) : Prog (List Item) := readAllLoop fuel fuel []
 
 /-- all items over the plain byte list -/
 def readAll (input : List UInt8) : List Item :=
